@@ -84,6 +84,18 @@ class Run:
         self.log.append(rec)
 
     # ---- rendering / store -------------------------------------------------
+    def count_configured(self):
+        for s in self.tr['steps']:
+            if s.get('io'):
+                self.stats['configured.io.' + s['io'].get('kind', '?')] += 1
+            if s.get('corrupt'):
+                self.stats['configured.corrupt.' + s['corrupt']['kind']] += 1
+            if s.get('channel'):
+                self.stats['configured.channel.' + s['channel']] += 1
+            if s['k'] == 'restart':
+                self.stats['configured.restart'] += 1
+        self.stats['configured.channel.lost'] += len(self.tr.get('dropped', []))
+
     def materialise(self, step):
         """-> (text, data) of a message step, after store corruption"""
         op = step['op']
@@ -367,6 +379,7 @@ class Run:
                       outcome, was_completed))
         if self.log and len(self.log[-1]) > 2:
             self.cov.add(('pair', self.log[-1][2] if self.log[-1][1] == 'msg' else self.log[-1][1], op['type']))
+        self.note_probes(op, step, outcome, was_completed, out)
         self.msgs.append((obj, snap, op, self.step_i))
         if ck.get('message', True) and ck.get('message_after', True):
             check_message(obj, op, self.adder(op, {'when': 'after-merge'}), 'after merge: ')
@@ -404,6 +417,43 @@ class Run:
         self.drain_twin(self.step_i)
         self.state_checks(op)
         self.event(self.step_i, 'msg', op['type'], path, outcome, tuple(out['warnings']), digest(B))
+
+    def note_probes(self, op, step, outcome, was_completed, out):
+        """'this rare condition was hit' counters (evidence; a probe stuck at zero means the workload must change)"""
+        pr = self.probes
+        sh = op.get('shapes', {})
+        t = op['type']
+        pos = sh.get('pos', '')
+        srcs = op.get('sources', [])
+        if 'Move' in t and pos in ('before', 'adjacent-before', 'both') and outcome == 'applied':
+            pr['forward-move-applied'] += 1
+        if 'Move' in t and len(srcs) >= 3 and outcome == 'applied':
+            pr['move-list>=3-applied'] += 1
+        if 'Delete' in t and len(srcs) >= 3:
+            pr['delete-list>=3'] += 1
+        if 'Swap' in t and str(pos).startswith('rev') and outcome == 'applied':
+            pr['reversed-swap-applied'] += 1
+        if 'Swap' in t and 'repeat' in sh.get('sources', []):
+            pr['swap-with-itself'] += 1
+        if t == 'StorySend' and str(pos) not in ('k=1', 'k=-') and outcome == 'applied':
+            pr['kth-story-resent-k>=2'] += 1
+        shapes = sh.get('sources', [])
+        if any(x != 'existing' for x in shapes[1:]) and len(shapes) >= 2:
+            pr['bad-ref-at-position>=2-of-n'] += 1
+        if was_completed:
+            pr['after-roDelete:' + t] += 1
+        if outcome == 'warned':
+            pr['warned:' + ','.join(sorted(set(out['warnings'])))] += 1
+        if sh.get('target') == 'blank' or op.get('tform') in ('blank', 'absent') or sh.get('target') == 'end':
+            pr['blank-or-end-target'] += 1
+        if sh.get('story') in ('blank', 'unknown', 'stale'):
+            pr['unresolvable-container'] += 1
+        if sh.get('dups'):
+            pr['insert-with-duplicates'] += 1
+        if step.get('channel'):
+            pr['channel-' + step['channel']] += 1
+        if op.get('roid_pos') or (t == 'StorySend' and op.get('body_span', [1])[0] == 0):
+            pr['storysend-unusual-layout'] += 1
 
     def poke(self, edited_root, other_root, changed, op, what):
         """behavioural probe for shared mutable content: edit an element of *edited_root* that is also
@@ -489,6 +539,7 @@ class Run:
     # ---- run -------------------------------------------------------------
     def run(self):
         self.fatal = None
+        self.count_configured()
         self.fs.install()
         self.s3.install()
         try:
